@@ -22,6 +22,48 @@ Proof. unfold adel. induction m as [|[j v] m IH]; cbn; auto. destruct (N.eqb j a
 Lemma adel_app m1 m2 k : adel (m1 ++ m2) k = adel m1 k ++ adel m2 k.
 Proof. unfold adel. apply filter_app. Qed.
 
+(* lookups *)
+Lemma aget_app m1 m2 x : aget (m1 ++ m2) x = match aget m1 x with Some v => Some v | None => aget m2 x end.
+Proof. induction m1 as [|[j v] m IH]; cbn; auto. destruct (N.eqb j x); auto. Qed.
+Lemma aget_adel m k x : aget (adel m k) x = if N.eqb x k then None else aget m x.
+Proof.
+  unfold adel. induction m as [|[j v] m IH]; cbn [filter aget fst]; [now destruct (N.eqb x k)|].
+  destruct (N.eqb j k) eqn:Ejk; cbn [negb aget]; rewrite IH; destruct (N.eqb x k) eqn:Exk; destruct (N.eqb j x) eqn:Ejx; try reflexivity;
+    rewrite ?N.eqb_eq, ?N.eqb_neq in *; subst; congruence.
+Qed.
+Lemma aget_aset m k v x : aget (aset m k v) x = if N.eqb x k then Some v else aget m x.
+Proof.
+  unfold aset. rewrite aget_app, aget_adel. cbn. destruct (N.eqb x k) eqn:E.
+  - rewrite N.eqb_sym, E. reflexivity.
+  - rewrite N.eqb_sym, E. now destruct (aget m x).
+Qed.
+Lemma aget_filter (f : N -> bool) m x : aget (filter (fun kv => f (fst kv)) m) x = if f x then aget m x else None.
+Proof.
+  induction m as [|[j v] m IH]; cbn; [now destruct (f x)|].
+  destruct (f j) eqn:Ej; cbn.
+  - destruct (N.eqb j x) eqn:E; [apply N.eqb_eq in E; subst; now rewrite Ej|exact IH].
+  - destruct (N.eqb j x) eqn:E; [apply N.eqb_eq in E; subst; now rewrite IH, Ej|exact IH].
+Qed.
+Lemma aget_setdefaults pt : forall res x, aget (setdefaults res pt) x = match aget res x with Some v => Some v | None => aget pt x end.
+Proof.
+  unfold setdefaults. induction pt as [|[k v] pt IH]; intros res x; cbn [fold_left fst snd aget]; [now destruct (aget res x)|].
+  rewrite IH. destruct (aget res k) eqn:Ek.
+  - destruct (aget res x) eqn:Ex; auto. destruct (N.eqb k x) eqn:E; auto. apply N.eqb_eq in E; subst. congruence.
+  - rewrite aget_aset. destruct (N.eqb x k) eqn:E.
+    + apply N.eqb_eq in E; subst. now rewrite Ek, N.eqb_refl.
+    + rewrite N.eqb_sym, E. reflexivity.
+Qed.
+Lemma aget_none_notin m k : ~ In k (keys m) -> aget m k = None.
+Proof. unfold keys. induction m as [|[j v] m IH]; cbn; auto. intros H. destruct (N.eqb j k) eqn:E; [apply N.eqb_eq in E; subst; tauto|]. apply IH. tauto. Qed.
+Lemma aget_some_in m k v : aget m k = Some v -> In k (keys m).
+Proof. unfold keys. induction m as [|[j w] m IH]; cbn; [discriminate|]. destruct (N.eqb j k) eqn:E; [apply N.eqb_eq in E; auto|auto]. Qed.
+Lemma keys_setdefaults pt : forall res x, In x (keys (setdefaults res pt)) -> In x (keys res) \/ In x (keys pt).
+Proof.
+  unfold setdefaults. induction pt as [|[k v] pt IH]; intros res x H; cbn [fold_left fst snd] in H; [now left|].
+  apply IH in H as [H|H]; [|right; now right].
+  destruct (aget res k); [now left|]. apply keys_aset in H as [[H _]|H]; [now left|subst; right; now left].
+Qed.
+
 (* names a program mentions *)
 Definition op_name (o : op) : N := match o with Bind k _ | Del k | GBind k _ => k end.
 Definition user_prog (p : prog) : Prop := forall o, In o (ops p) -> (10 <= op_name o)%N.
@@ -38,15 +80,24 @@ Proof.
   - intros x Hx. apply keys_aset in Hx as [[Hx _]|Hx]; subst; auto.
 Qed.
 
-Lemma filter_usable_user m : user_map m -> filter (fun kv => usable (fst kv)) m = m.
+Lemma usable_user k : (10 <= k)%N -> usable k = true.
 Proof.
-  intros H. induction m as [|[k v] m IH]; cbn; auto.
-  assert (Hk : (10 <= k)%N) by (apply H; now left).
-  assert (Hu : usable k = true).
-  { unfold usable, at_prefixed, n_dunder. apply andb_true_intro. split; apply negb_true_iff.
-    - apply andb_false_intro2. apply N.leb_gt. lia.
-    - apply N.eqb_neq. lia. }
-  rewrite Hu. f_equal. apply IH. intros x Hx. apply H. now right.
+  intros Hk. unfold usable, at_prefixed, n_dunder. apply andb_true_intro. split; apply negb_true_iff.
+  - apply andb_false_intro2. apply N.leb_gt. lia.
+  - apply N.eqb_neq. lia.
+Qed.
+(* every supplied name can be, and is, a parameter: none is declared global by the program, none is a keyword / non-identifier *)
+Definition plain_locals (L : assoc) (p : prog) : Prop := forall k, In k (keys L) -> is_param (gdecl p) k = true.
+Lemma filter_all_true {A} (f : A -> bool) l : (forall x, In x l -> f x = true) -> filter f l = l.
+Proof. induction l as [|x l IH]; cbn; auto. intros H. rewrite (H x (or_introl eq_refl)). f_equal. apply IH. intros y Hy. apply H. now right. Qed.
+Lemma filter_all_false {A} (f : A -> bool) l : (forall x, In x l -> f x = false) -> filter f l = [].
+Proof. induction l as [|x l IH]; cbn; auto. intros H. rewrite (H x (or_introl eq_refl)). apply IH. intros y Hy. apply H. now right. Qed.
+Lemma plain_params L p : plain_locals L p -> filter (fun kv => is_param (gdecl p) (fst kv)) L = L.
+Proof. intros H. apply filter_all_true. intros [k v] Hin. apply H. unfold keys. now apply (in_map fst) in Hin. Qed.
+Lemma plain_pt L p : plain_locals L p -> filter (fun kv => passes_through (gdecl p) (fst kv)) L = [].
+Proof.
+  intros H. apply filter_all_false. intros [k v] Hin. unfold passes_through. cbn [fst].
+  rewrite (H k); [reflexivity|]. unfold keys. now apply (in_map fst) in Hin.
 Qed.
 
 Lemma restore_L L : user_map L -> adel (adel (aset (aset L n_env 0) n_fun 0) n_fun) n_env = L.
@@ -59,10 +110,11 @@ Proof.
 Qed.
 
 (* C15_result: exactly the function-body reference, and the caller's mapping is left as it was *)
-Theorem exec_refines L G p : user_map L -> user_map G -> user_prog p -> raises_after p = None ->
+Theorem exec_refines L G p : user_map L -> user_map G -> user_prog p -> plain_locals L p -> raises_after p = None ->
   exec_model L G p = (Some (fst (spec_result L G p)), L, snd (spec_result L G p)).
 Proof.
-  intros HL HG Hp Hr. unfold exec_model, spec_result. rewrite Hr. rewrite (filter_usable_user L HL).
+  intros HL HG Hp Hpl Hr. unfold exec_model, spec_result. rewrite Hr. rewrite (plain_params L p Hpl), (plain_pt L p Hpl).
+  unfold setdefaults. cbn [fold_left].
   unfold assoc in *.
   destruct (run_ops (ops p) (L, G)) as [loc g] eqn:E. cbn [fst snd].
   pose proof (run_ops_keys (ops p) L G Hp HL HG) as [Hloc _]. unfold assoc in Hloc. rewrite E in Hloc. cbn in Hloc.
@@ -74,13 +126,92 @@ Proof.
   now rewrite app_nil_r.
 Qed.
 
+(* the globals a program leaves do not depend on its locals *)
+Lemma run_ops_snd_indep l : forall loc1 loc2 g, snd (run_ops l (loc1, g)) = snd (run_ops l (loc2, g)).
+Proof. induction l as [|o l IH]; intros loc1 loc2 g; cbn; auto. destruct o; cbn; apply IH. Qed.
+Lemma user_map_filter (f : N * Z -> bool) m : user_map m -> user_map (filter f m).
+Proof. intros H k Hk. apply H. unfold keys in *. apply in_map_iff in Hk as ([a b] & <- & Hin). apply filter_In in Hin as [Hin _]. now apply (in_map fst) in Hin. Qed.
+
 (* when the program raises: the caller's mapping is untouched, globals hold what was bound before the raise *)
 Theorem exec_raises L G p i : user_map L -> user_map G -> user_prog p -> raises_after p = Some i ->
   exec_model L G p = (None, L, snd (run_ops (firstn i (ops p)) (L, G))).
 Proof.
-  intros HL HG Hp Hr. unfold exec_model. rewrite Hr. rewrite (filter_usable_user L HL).
+  intros HL HG Hp Hr. unfold exec_model. rewrite Hr.
+  pose proof (run_ops_snd_indep (firstn i (ops p)) (filter (fun kv => is_param (gdecl p) (fst kv)) L) L G) as Hs.
   unfold assoc in *.
-  destruct (run_ops (firstn i (ops p)) (L, G)) as [loc g]. cbn. now rewrite (restore_L L HL).
+  destruct (run_ops (firstn i (ops p)) (filter (fun kv => is_param (gdecl p) (fst kv)) L, G)) as [loc0 g0].
+  destruct (run_ops (firstn i (ops p)) (L, G)) as [loc g]. cbn in *. subst g0. now rewrite (restore_L L HL).
+Qed.
+
+(* ---- supplied names that are NOT parameters: declared global by the program, or not a possible parameter name *)
+Definition wf_prog (p : prog) : Prop := forall o, In o (ops p) ->
+  match o with
+  | Bind k _ | Del k => cannot_be_param k = false /\ ~ In k (gdecl p)      (* a local of the program: an identifier it does not declare global *)
+  | GBind k _ => In k (gdecl p)
+  end.
+Lemma existsb_eqb_false k gd : ~ In k gd -> existsb (N.eqb k) gd = false.
+Proof. induction gd as [|x gd IH]; cbn; auto. intros H. destruct (N.eqb_spec k x) as [->|_]; [tauto|]. apply IH. tauto. Qed.
+
+Lemma run_ops_lookup gd l : forall loc1 loc2 g,
+  (forall o, In o l -> (10 <= op_name o)%N) ->
+  (forall o, In o l -> match o with Bind k _ | Del k => cannot_be_param k = false /\ ~ In k gd | GBind k _ => In k gd end) ->
+  (forall x, is_param gd x = true -> aget loc1 x = aget loc2 x) ->
+  (forall x, is_param gd x = true -> aget (fst (run_ops l (loc1, g))) x = aget (fst (run_ops l (loc2, g))) x)
+  /\ (forall x, is_param gd x = false -> aget (fst (run_ops l (loc1, g))) x = aget loc1 x /\ aget (fst (run_ops l (loc2, g))) x = aget loc2 x).
+Proof.
+  induction l as [|o l IH]; intros loc1 loc2 g Hu Hw He; [cbn; split; auto|].
+  assert (Ho : (10 <= op_name o)%N) by (apply Hu; now left).
+  pose proof (Hw o (or_introl eq_refl)) as Hwo.
+  assert (Hu' : forall o', In o' l -> (10 <= op_name o')%N) by (intros; apply Hu; now right).
+  assert (Hw' : forall o', In o' l -> match o' with Bind k _ | Del k => cannot_be_param k = false /\ ~ In k gd | GBind k _ => In k gd end) by (intros; apply Hw; now right).
+  destruct o as [k v|k|k v]; cbn [run_ops fold_left apply_op].
+  - destruct Hwo as [Hc Hg]. assert (Hk : is_param gd k = true).
+    { unfold is_param. cbn in Ho. now rewrite (usable_user k Ho), Hc, (existsb_eqb_false k gd Hg). }
+    destruct (IH (aset loc1 k v) (aset loc2 k v) g Hu' Hw') as [H1 H2].
+    { intros x Hx. rewrite !aget_aset. destruct (N.eqb x k); auto. }
+    split; [exact H1|]. intros x Hx. destruct (H2 x Hx) as [A B]. fold (run_ops l (aset loc1 k v, g)). fold (run_ops l (aset loc2 k v, g)).
+    rewrite A, B, !aget_aset. destruct (N.eqb_spec x k) as [->|_]; [congruence|auto].
+  - destruct Hwo as [Hc Hg]. assert (Hk : is_param gd k = true).
+    { unfold is_param. cbn in Ho. now rewrite (usable_user k Ho), Hc, (existsb_eqb_false k gd Hg). }
+    destruct (IH (adel loc1 k) (adel loc2 k) g Hu' Hw') as [H1 H2].
+    { intros x Hx. rewrite !aget_adel. destruct (N.eqb x k); auto. }
+    split; [exact H1|]. intros x Hx. destruct (H2 x Hx) as [A B]. fold (run_ops l (adel loc1 k, g)). fold (run_ops l (adel loc2 k, g)).
+    rewrite A, B, !aget_adel. destruct (N.eqb_spec x k) as [->|_]; [congruence|auto].
+  - apply (IH loc1 loc2 (aset g k v) Hu' Hw' He).
+Qed.
+
+(* the result holds, name by name, what the function-body reference holds - supplied names the program declares global or
+   that cannot be parameters included (they are handed back unchanged) *)
+Theorem exec_passthrough L G p : user_map L -> user_map G -> user_prog p -> wf_prog p -> raises_after p = None ->
+  exists res, exec_model L G p = (Some res, L, snd (spec_result L G p)) /\ forall k, aget res k = aget (fst (spec_result L G p)) k.
+Proof.
+  intros HL HG Hp Hw Hr. unfold exec_model, spec_result. rewrite Hr.
+  set (params := filter (fun kv => is_param (gdecl p) (fst kv)) L).
+  set (pt := filter (fun kv => passes_through (gdecl p) (fst kv)) L).
+  pose proof (run_ops_snd_indep (ops p) params L G) as Hs.
+  assert (He : forall x, is_param (gdecl p) x = true -> aget params x = aget L x).
+  { intros x Hx. unfold params. now rewrite (aget_filter (is_param (gdecl p))), Hx. }
+  destruct (run_ops_lookup (gdecl p) (ops p) params L G Hp Hw He) as [H1 H2].
+  pose proof (run_ops_keys (ops p) L G Hp HL HG) as [HlocL _].
+  unfold assoc in *.
+  destruct (run_ops (ops p) (params, G)) as [loc g] eqn:E1. destruct (run_ops (ops p) (L, G)) as [locL gL] eqn:E2.
+  cbn [fst snd] in *. subst g. rewrite (restore_L L HL).
+  eexists. split; [reflexivity|]. intros k.
+  rewrite aget_setdefaults, !aget_adel, aget_aset.
+  assert (HptL : forall x, aget pt x = if passes_through (gdecl p) x then aget L x else None).
+  { intros x. unfold pt. apply (aget_filter (passes_through (gdecl p))). }
+  assert (Hsmall : forall x, (x < 10)%N -> aget locL x = None /\ aget L x = None).
+  { intros x Hx. split; apply aget_none_notin; intros Hc; [apply HlocL in Hc|apply HL in Hc]; lia. }
+  destruct (N.eqb_spec k n_builtins) as [->|Hnb].
+  { destruct (Hsmall n_builtins) as [A B]; [unfold n_builtins; lia|]. rewrite A, HptL, B. now destruct (passes_through (gdecl p) n_builtins). }
+  destruct (N.eqb_spec k n_dunder) as [->|Hnd].
+  { destruct (Hsmall n_dunder) as [A B]; [unfold n_dunder; lia|]. rewrite A, HptL, B. now destruct (passes_through (gdecl p) n_dunder). }
+  destruct (is_param (gdecl p) k) eqn:Ek.
+  - rewrite (H1 k Ek). destruct (aget locL k); [reflexivity|]. rewrite HptL. unfold passes_through. now rewrite Ek.
+  - destruct (H2 k Ek) as [A B]. rewrite A, B. unfold params. rewrite (aget_filter (is_param (gdecl p))), Ek.
+    rewrite HptL. unfold passes_through. rewrite Ek. cbn [negb andb].
+    destruct (usable k) eqn:Eu; [reflexivity|]. symmetry. apply aget_none_notin. intros Hc. apply HL in Hc.
+    rewrite (usable_user k Hc) in Eu. discriminate.
 Qed.
 
 (* C15_clean: no library-internal name in the result, the caller's mapping or globals, whether it finishes or raises *)
@@ -97,8 +228,16 @@ Proof.
     { induction l as [|x l IHl]; intros [|j] o Ho; cbn in *; auto; try contradiction. destruct Ho as [->|Ho]; eauto. }
     assert (Hq : forall o, In o (firstn i (ops p)) -> (10 <= op_name o)%N) by (intros o Ho; apply Hp; eapply Hin; eauto).
     apply user_clean. apply (run_ops_keys _ L G Hq HL HG).
-  - rewrite (exec_refines L G p HL HG Hp Er). unfold spec_result.
-    destruct (run_ops_keys (ops p) L G Hp HL HG) as [H1 H2]. repeat split; apply user_clean; auto.
+  - unfold exec_model. rewrite Er.
+    set (params := filter (fun kv => is_param (gdecl p) (fst kv)) L).
+    set (pt := filter (fun kv => passes_through (gdecl p) (fst kv)) L).
+    assert (Hpar : user_map params) by (apply user_map_filter; exact HL).
+    assert (Hpt : user_map pt) by (apply user_map_filter; exact HL).
+    destruct (run_ops_keys (ops p) params G Hp Hpar HG) as [H1 H2].
+    unfold assoc in *. destruct (run_ops (ops p) (params, G)) as [loc g]. cbn [fst snd] in *.
+    rewrite (restore_L L HL). repeat split; try (apply user_clean; assumption).
+    apply user_clean. intros k Hk. apply keys_setdefaults in Hk as [Hk|Hk]; [|now apply Hpt].
+    apply keys_adel in Hk as [Hk _]. apply keys_adel in Hk as [Hk Hnd]. apply keys_aset in Hk as [[Hk _]|Hk]; [now apply H1|congruence].
 Qed.
 
 (* a program that binds the names `builtins` or `__` loses them from the result (known finding) *)
@@ -106,4 +245,4 @@ Theorem reserved_names_refuted :
   exists p, raises_after p = None /\
     aget (fst (spec_result [] [] p)) n_builtins = Some 5%Z /\
     (match fst (fst (exec_model [] [] p)) with Some res => aget res n_builtins | None => None end) = None.
-Proof. exists {| ops := [Bind n_builtins 5%Z]; raises_after := None |}. vm_compute. repeat split; reflexivity. Qed.
+Proof. exists {| ops := [Bind n_builtins 5%Z]; raises_after := None; gdecl := [] |}. vm_compute. repeat split; reflexivity. Qed.
